@@ -91,4 +91,30 @@ def respond (content : Bytes) (hdr : Option Bytes) : Res :=
 /-- Path resolution of the static modifier: `filepath.Join(path.Clean(root), filepath.Clean(urlPath))`. -/
 def resolve (root urlPath : Bytes) : Bytes := join2 (clean root) (clean urlPath)
 
+/-! ### One modifier instance serving a file whose content changes between requests
+
+`static.Modifier` opens and stats the file on every request and keeps nothing about it, so the state
+that matters is what is on disk now. -/
+
+/-- what happens to one served path: the file is rewritten, or a request for it (with this `Range`
+header, if any) is answered -/
+inductive FileOp
+  | write (content : Bytes)
+  | get (hdr : Option Bytes)
+
+/-- state: the bytes on disk; output: the answer of a `get` -/
+def fileStep (disk : Bytes) : FileOp → Bytes × Option Res
+  | .write c => (c, none)
+  | .get h => (disk, some (respond disk h))
+
+def fileRun (disk : Bytes) : List FileOp → Bytes
+  | [] => disk
+  | op :: ops => fileRun (fileStep disk op).1 ops
+
+/-- the content most recently written in a history (the initial content if none) -/
+def lastWritten (disk : Bytes) : List FileOp → Bytes
+  | [] => disk
+  | .write c :: ops => lastWritten c ops
+  | .get _ :: ops => lastWritten disk ops
+
 end Martian.Range
